@@ -236,6 +236,35 @@ class HistGen:
         self.drain(rng.randint(0, 8), {"ok": 1})
         self.exit("ok")
 
+    def p_leftover(self):
+        """C01: what one kind of harvest leaves behind is delivered by the next one.  A transaction carries metrics and data of
+        ONE other category; the default data are harvested; nothing else arrives; then an all-at-once harvest or the final
+        flush must deliver the rest (seeded/C01i1: a harvest holding only log events passed for empty)."""
+        rng = self.rng
+        caps = {c: 100 for c in EVENT_CATS}
+        run = self.connect(1, dt=rng.random() < 0.3, caps=caps)
+        for _ in range(rng.randint(1, 3)):
+            cat = rng.choice(["log", "log", "custom", "errev", "span", "txnev"])
+            prio = self.newprio()
+            items = [{"cat": "metrics", "tag": self.newtag(), "prio": 0, "key": rng.randint(1, 6), "slot": self.mslot}]
+            self.mslot += 1
+            for _ in range(1 if cat == "txnev" else rng.randint(1, 2)):     # (a transaction has one transaction event)
+                items.append({"cat": cat, "tag": self.newtag(), "prio": prio, "key": 0})
+                self.count(run, cat, 100)
+            self.ops.append({"op": "txn", "run": run, "prio": prio, "synth": False, "items": items, "pkgs": None})
+            self.tick(ah=0, ty=DEFAULT)
+            self.drain(4, {"ok": 1})
+            k = rng.random()
+            if k < 0.4:
+                self.tick(ah=0, ty=ALL)
+                self.drain(6, {"ok": 1})
+            elif k < 0.6:
+                self.tick(ah=0, ty=BITS[cat] if cat in BITS else ALL)
+                self.drain(4, {"ok": 1})
+            elif k < 0.8:
+                break
+        self.exit("ok")
+
     def p_mixed(self):
         rng = self.rng
         napps = rng.randint(1, 3)
@@ -804,7 +833,7 @@ def cases_v(hists, obs, which=("corr", "viols", "mviols")):
 def parse_triples(txt):
     if txt is None:
         return None
-    return [(int(a), int(b), int(c)) for a, b, c in re.findall(r"\((\d+)(?:%nat)?,\s*(\d+)(?:%N)?,\s*(\d+)(?:%nat)?\)", txt)]
+    return [(int(a), int(b), int(c)) for a, b, c in re.findall(r"\(\s*(\d+)(?:%nat)?\s*,\s*(\d+)(?:%N)?\s*,\s*(\d+)(?:%nat)?\s*\)", txt)]
 
 
 def evaluate(name, hists, obs, shards=4, timeout=900):
